@@ -316,8 +316,37 @@ func (e *c20Engine) generate(seed uint64) (*kit.Trace, *kit.Rng) {
 	if nt >= 8 && kind == kindLin && cr.Chance(3, 4) {
 		profile = 4 // insert/query only: decidable for many tasks
 	}
+	if kind == kindLin && cr.Chance(1, 40) {
+		// long storm: one task issues hundreds of reloads / unloads while
+		// another is inside a single query (wrapping counters, epochs,
+		// retry loops); priorities decide, so the query task can stay parked
+		// for the whole storm
+		profile = 5
+		nt = 2
+		t.Config["policy"] = sched.PolPCT
+		t.Config["pct_d"] = int64(cr.Range(1, 2))
+		t.Config["storm"] = int64([]int{255, 256, 257, 511, 512, 513, cr.Range(250, 530)}[cr.Intn(7)])
+	}
 	t.Config["profile"] = int64(profile)
 	for c := 0; c < nt; c++ {
+		if profile == 5 {
+			var ops []kit.Op
+			if c == 0 {
+				for i, n := 0, wr.Range(1, 3); i < n; i++ {
+					ops = append(ops, e.genOp(wr, kind, 2, 1, nt, nm, ntx, pool, hashes)) // reader ops
+				}
+			} else {
+				for i, n := 0, int(t.Config["storm"]); i < n; i++ {
+					if wr.Chance(1, 8) {
+						ops = append(ops, kit.Op{K: "unload"})
+					} else {
+						ops = append(ops, kit.Op{K: "reload", H: wr.Intn(nm)})
+					}
+				}
+			}
+			t.Clients = append(t.Clients, ops)
+			continue
+		}
 		nops := wr.Range(1, maxOps)
 		var ops []kit.Op
 		for i := 0; i < nops; i++ {
@@ -526,7 +555,6 @@ func buildWorld(t *kit.Trace) (*c20World, error) {
 			}
 			w.txs = append(w.txs, tx)
 			u := bchutil.NewTx(tx)
-			u.Hash() // fill the (unsynchronised) memo before tasks share it
 			w.utx = append(w.utx, u)
 			w.views = append(w.views, model.ViewOf(tx))
 		case "block":
@@ -587,6 +615,17 @@ func buildWorld(t *kit.Trace) (*c20World, error) {
 	}
 	for _, d := range w.pre {
 		w.filter.Add(d)
+	}
+	// bchutil.Tx memoises its hash without a lock. Passed only to ONE filter,
+	// the memo is protected by that filter's mutex (the code under test hashes
+	// inside its critical section), so half of the shared transactions reach
+	// the tasks with an empty memo. With a bystander (a second filter) the
+	// same Tx would be hashed under two different locks, which is the
+	// caller's problem, not the filter's: then every memo is filled first.
+	for i, u := range w.utx {
+		if w.by != nil || i%2 == 0 {
+			u.Hash()
+		}
 	}
 	if w.kind == kindComposite {
 		blk := wire.NewMsgBlock(&wire.BlockHeader{Version: 1, Bits: 0x207fffff})
@@ -814,7 +853,11 @@ func (e *c20Engine) execute(t *kit.Trace, srng *kit.Rng, st *kit.Stats, record b
 		s.Policy = int(t.Cfg("policy", sched.PolUniform))
 		s.StayNum = int(t.Cfg("stay", 12))
 		if s.Policy == sched.PolPCT {
-			s.SetPCT(srng, int(t.Cfg("pct_d", 2)), 20+12*totalOps)
+			horizon := 20 + 12*totalOps
+			if t.Cfg("profile", 0) == 5 {
+				horizon = 40 // the priority change should fall inside the query task's first operations
+			}
+			s.SetPCT(srng, int(t.Cfg("pct_d", 2)), horizon)
 		}
 	} else {
 		s = sched.New(nt, nil, t.Schedule, maxSteps)
